@@ -262,6 +262,10 @@ class Ctx:
     # ---- finish ---------------------------------------------------------------------
     def finish(self, level='proof', checker_cmd=None, extra_cov=None):
         wall = time.time() - self.t0
+        try:
+            self.notes.append(source_drift(self.pid))
+        except Exception as e:  # noqa
+            self.notes.append(f'source fingerprint not computed: {type(e).__name__}')
         cov = {
             'obligations': len(self.obligations),
             'discharged': len(self.discharged),
@@ -366,3 +370,52 @@ def run_in_child(module, func, env_extra=None, cwd=None, timeout=600):
     if p.returncode != 0:
         return {'child_failed': p.stderr[-1500:]}
     return json.loads(p.stdout)
+
+
+def function_fingerprints(path):
+    """{qualified function name: sha1 of its AST without docstrings} for one source file"""
+    import ast
+    import hashlib
+    out = {}
+    import warnings
+    with warnings.catch_warnings():
+        warnings.simplefilter('ignore')
+        tree = ast.parse(open(path).read())
+
+    def strip(node):
+        for n in ast.walk(node):
+            body = getattr(n, 'body', None)
+            if isinstance(body, list) and body and isinstance(body[0], ast.Expr) and isinstance(getattr(body[0], 'value', None), ast.Constant) \
+                    and isinstance(body[0].value.value, str):
+                n.body = body[1:] or [ast.Pass()]
+        return node
+
+    def visit(node, prefix):
+        for ch in ast.iter_child_nodes(node):
+            if isinstance(ch, (ast.FunctionDef, ast.AsyncFunctionDef)):
+                out[prefix + ch.name] = hashlib.sha1(ast.dump(strip(ch)).encode()).hexdigest()[:12]
+                visit(ch, prefix + ch.name + '.')
+            elif isinstance(ch, ast.ClassDef):
+                visit(ch, prefix + ch.name + '.')
+    visit(tree, '')
+    return out
+
+
+def source_drift(pid):
+    """which anchored functions differ from the fingerprints recorded when the model was last validated against them (information
+    for the reader of the evidence: the model is tied by the correspondence run, not by this fingerprint)"""
+    anchors = []
+    for line in open(os.path.join(VERIF, 'properties.jsonl')):
+        d = json.loads(line)
+        if d['id'] == pid:
+            anchors = d['anchors']['files']
+    fp_path = os.path.join(VERIF, 'harness', 'fingerprints.json')
+    recorded = json.load(open(fp_path)) if os.path.exists(fp_path) else {}
+    changed = []
+    for f in anchors:
+        cur = function_fingerprints(os.path.join(REPO, f))
+        old = recorded.get(f, {})
+        changed += [f'{f}::{k}' for k in sorted(set(cur) | set(old)) if cur.get(k) != old.get(k)]
+    if not changed:
+        return f'anchored source: all functions of {len(anchors)} anchor file(s) match the recorded fingerprints (harness/fingerprints.json)'
+    return 'anchored source differs from the recorded fingerprints in: ' + ', '.join(changed[:12]) + (' ...' if len(changed) > 12 else '')
